@@ -59,7 +59,14 @@ static std::string hexdec(const std::string &h) {
   for (size_t i = 0; i + 1 < h.size(); i += 2) s.push_back((char) strtol(h.substr(i, 2).c_str(), NULL, 16));
   return s;
 }
-static std::string fd(double v) { char b[64]; snprintf(b, sizeof b, "%a", v); return b; }
+// the interpreter's own number I/O never depends on the process locale (the library is run under other locales on purpose): output is
+// normalised to '.', input is read with an explicit "C" locale object - the process and thread locale are left alone
+static std::string fd(double v) { char b[64]; snprintf(b, sizeof b, "%a", v); for (char *q = b; *q; q++) if (*q == ',') *q = '.'; return b; }
+static double c_strtod(const char *s, char **end) {
+  static locale_t cloc = newlocale(LC_ALL_MASK, "C", (locale_t) 0);
+  return strtod_l(s, end, cloc);
+}
+static const char *harness_locale() { const char *l = getenv("XRLCALL_LOCALE"); return (l && *l) ? l : "C.utf8"; }
 
 // threads mode: crystals built from a token are shared between the threads (one object per distinct token), as a program would share a crystal it
 // built once - every thread only reads it.  "g:" = cell with its volume filled in, "h:" = the same left at volume 0 (a hand-made struct).
@@ -86,7 +93,7 @@ struct Ctx {
   const std::string &next() { static std::string empty; return pos < tok.size() ? tok[pos++] : empty; }
   void skip() { pos++; }
   int geti() { return (int) strtol(next().c_str(), NULL, 10); }
-  double getd() { return strtod(next().c_str(), NULL); }
+  double getd() { return c_strtod(next().c_str(), NULL); }
   const char *gets() {
     const std::string &t = next();
     if (t == "NULL") return NULL;
@@ -97,8 +104,8 @@ struct Ctx {
     const std::string &t = next();
     xrlComplex z;
     char *e;
-    z.re = strtod(t.c_str(), &e);
-    z.im = strtod(e + 1, NULL);
+    z.re = c_strtod(t.c_str(), &e);
+    z.im = c_strtod(e + 1, NULL);
     return z;
   }
   Crystal_Struct *getcrystal() {
@@ -124,14 +131,14 @@ struct Ctx {
     const char *p = t.c_str() + 2;
     char *e;
     double cell[6];
-    for (int i = 0; i < 6; i++) { cell[i] = strtod(p, &e); p = e + 1; }
+    for (int i = 0; i < 6; i++) { cell[i] = c_strtod(p, &e); p = e + 1; }
     while (*p) {
       Crystal_Atom a;
       a.Zatom = (int) strtol(p, &e, 10); p = e + 1;
-      a.fraction = strtod(p, &e); p = e + 1;
-      a.x = strtod(p, &e); p = e + 1;
-      a.y = strtod(p, &e); p = e + 1;
-      a.z = strtod(p, &e); p = e;
+      a.fraction = c_strtod(p, &e); p = e + 1;
+      a.x = c_strtod(p, &e); p = e + 1;
+      a.y = c_strtod(p, &e); p = e + 1;
+      a.z = c_strtod(p, &e); p = e;
       if (*p == '|') p++;
       atoms.push_back(a);
     }
@@ -601,14 +608,20 @@ int main(int argc, char **argv) {
       fputs(r.c_str(), out); fprintf(out, "\tH\t%ld\n", hd);
     }
   } else if (mode == "simple") {
+    if (getenv("XRLCALL_LOCALE") && !setlocale(LC_ALL, harness_locale())) setlocale(LC_ALL, "C");
     for (auto &l : lines) { std::string r = run_simple(l); fputs(r.c_str(), out); fputc('\n', out); }
   } else if (mode == "history") {
     // argv[4] = file with "addr size" lines (hex): data/bss/rodata ranges contributed by libxrl.a (from the link map)
     std::vector<Range> ranges;
     if (argc > 4) { for (auto &l : read_lines(argv[4])) { Range r; if (sscanf(l.c_str(), "%lx %lx", &r.addr, &r.size) == 2) ranges.push_back(r); } }
-    setlocale(LC_ALL, "C.utf8");
+    if (!setlocale(LC_ALL, harness_locale())) setlocale(LC_ALL, "C.utf8");
     std::string loc0 = std::string(setlocale(LC_ALL, NULL)) + "|" + setlocale(LC_NUMERIC, NULL);
     char cwd0[4096]; if (!getcwd(cwd0, sizeof cwd0)) cwd0[0] = 0;
+    g_share_user_crystals = true;      // one object per generated crystal for the whole history, as a program would keep it
+    // hidden state of the C library that belongs to the caller: a strtok() walk in progress and the rand() sequence
+    static char walk[] = "first;second;third";
+    char *tok1 = strtok(walk, ";");
+    srand(12345u); int r_expect; { unsigned s = 12345u; (void) s; r_expect = 0; }
     unsigned long long ck0 = fnv_ranges(ranges) ^ fnv_tls();
     int fe_round0 = fegetround(), fe_exc0 = fegetexcept();      // floating-point environment of the caller: rounding mode, trapping mask
     mode_t um0 = umask(0); umask(um0);
@@ -634,11 +647,15 @@ int main(int argc, char **argv) {
     for (auto &ke : kept_errors) { if (errdesc(ke.first) != ke.second) errs_ok = false; xrl_error_free(ke.first); }
     for (auto &r : res) { fputs(r.c_str(), out); fputc('\n', out); }
     mode_t um1 = umask(0); umask(um1);
-    int env_ok = (fegetround() == fe_round0 && fegetexcept() == fe_exc0 && um0 == um1) ? 1 : 0;
+    char *tok2 = strtok(NULL, ";");
+    int r_after = rand();
+    srand(12345u); r_expect = rand();
+    int libc_ok = (tok1 && tok2 && strcmp(tok2, "second") == 0 && r_after == r_expect) ? 1 : 0;
+    int env_ok = (fegetround() == fe_round0 && fegetexcept() == fe_exc0 && um0 == um1 && libc_ok) ? 1 : 0;
     fprintf(out, "STATE\t%llx\t%llx\t%d\t%d\t%d\t%s\t%s\t%zu\t%zu\t%d\n", ck0, ck1, loc0 == loc1 ? 1 : 0, strcmp(cwd0, cwd1) == 0 ? 1 : 0, errs_ok ? 1 : 0,
             serr.empty() ? "-" : hexenc(serr.c_str(), serr.size()).c_str(), sout.empty() ? "-" : hexenc(sout.c_str(), sout.size()).c_str(), kept_errors.size(), ranges.size(), env_ok);
   } else if (mode == "fresh") {
-    setlocale(LC_ALL, "C.utf8");
+    if (!setlocale(LC_ALL, harness_locale())) setlocale(LC_ALL, "C.utf8");
     // every call in a child forked from a parent that has never called the library
     for (auto &l : lines) {
       int pfd[2];
@@ -660,6 +677,7 @@ int main(int argc, char **argv) {
     }
   } else if (mode.rfind("threads:", 0) == 0) {
     g_share_user_crystals = true;
+    if (getenv("XRLCALL_LOCALE") && !setlocale(LC_ALL, harness_locale())) setlocale(LC_ALL, "C");
     size_t T = (size_t) atoi(mode.c_str() + 8);
     const char *p = strchr(mode.c_str() + 8, ':');
     unsigned ys = p ? (unsigned) atoi(p + 1) : 0;
